@@ -350,4 +350,11 @@ def _collected_data(cfg):
     return unit
 
 
-UNITS = [(f"collected-data:{c}", _collected_data(c)) for c in ("PPO/box", "PPO/discrete-masked", "A2C/box")] + [(f"ppo:{n}:{c}", unit_ppo(n, c)) for n in (False, True) for c in (False, True)] + [("ppo-lemmas", unit_ppo_lemmas), ("a2c-reinforce", unit_pg), ("optimizer", unit_optimizer)]
+def _ctor_unit():
+    from contracts import _ctor
+    from lerax.algorithm import REINFORCE
+    return _ctor.unit_constructor([(PPO, {}, ("clip_coefficient", "entropy_loss_coefficient", "value_loss_coefficient", "max_grad_norm")),
+                                   (A2C, {}, ("entropy_loss_coefficient", "value_loss_coefficient", "max_grad_norm")), (REINFORCE, {}, ("value_loss_coefficient", "max_grad_norm"))])
+
+
+UNITS = [("constructor", _ctor_unit())] + [(f"collected-data:{c}", _collected_data(c)) for c in ("PPO/box", "PPO/discrete-masked", "A2C/box")] + [(f"ppo:{n}:{c}", unit_ppo(n, c)) for n in (False, True) for c in (False, True)] + [("ppo-lemmas", unit_ppo_lemmas), ("a2c-reinforce", unit_pg), ("optimizer", unit_optimizer)]
